@@ -200,3 +200,58 @@ def regroup(entries):
     for (nm, _, _), toks in entries:
         groups.setdefault(nm, []).extend(toks)
     return groups
+
+
+# ---------------------------------------------------------------------------
+# ToFunction.v
+HEADER_TF = ("From Coq Require Import QArith List String.\n"
+             "From SM Require Import Num Graph Engine Expr Types Blocks Sym ToFunction TFSym.\n"
+             "Import ListNotations.\nSet Printing Width 1000000.\nSet Printing Depth 1000000.\n")
+LPAR_COQ = {"L": "PL", "rho_max": "Prhomax", "rho_crit": "Prhocrit", "v_free": "Pvfree", "a": "Pa",
+            "turnrate": "Pturn", "alpha": "Palpha"}
+GPAR_COQ = {"T": "GT", "tau": "Gtau", "eta": "Geta", "kappa": "Gkappa", "delta": "Gdelta", "phi": "Gphi"}
+
+
+def coq_ident(tok):
+    p = tok.split(".")
+    if p[0] == "lp":
+        return f"(LPar {p[1]}%nat {LPAR_COQ[p[2]]})"
+    if p[0] == "C":
+        return f"(OCap {p[1]}%nat)"
+    if p[0] == "g":
+        return f"(Glob {GPAR_COQ[p[1]]})"
+    raise KeyError(tok)
+
+
+def coq_names(net, names):
+    def lst(kind, ids):
+        n = (max(ids) + 1) if ids else 0
+        return "[" + "; ".join('"%s"%%string' % names.get((kind, i), "") for i in range(n)) + "]"
+    return ("{| lname := fun l => nth l %s \"\"%%string; oname := fun o => nth o %s \"\"%%string; "
+            "dname := fun d => nth d %s \"\"%%string |}" % (lst("l", list(net.links)), lst("o", list(net.origins)),
+                                                           lst("d", list(net.dests))))
+
+
+def tf_term(net, names, opts, compact, more_out, ptoks, pnames):
+    ps = "[" + "; ".join(f'("{pnames[t]}"%string, {coq_ident(t)})' for t in (ptoks or [])) + "]"
+    return (f"run_tf cs_engine {coq_names(net, names)} {net.coq_universe()} {net.coq_graph()} "
+            f"{nets.coq_options(opts or {})} {b(net.has_delta)} {b(net.has_phi)} {min(compact, 2) if compact > 0 else 0}%nat "
+            f"{b(more_out)} {ps}")
+
+
+def tf_models(terms):
+    res, _ = cached_eval(terms, HEADER_TF)
+    out = []
+    for lines in res:
+        ins, outs, err = [], [], None
+        for ln in lines:
+            if ln.startswith("IN "):
+                nm, rest = ln[3:].split(" | ", 1) if " | " in ln else (ln[3:].rstrip(" |"), "")
+                ins.append((nm, rest.split()))
+            elif ln.startswith("OUT "):
+                nm, rest = ln[4:].split(" | ", 1) if " | " in ln else (ln[4:].rstrip(" |"), "")
+                outs.append((nm, [tree.parse(t) for t in rest.split(" ; ") if t.strip()]))
+            elif ln.startswith("ERR "):
+                err = ln[4:]
+        out.append({"in": ins, "out": outs, "err": err})
+    return out
